@@ -6,6 +6,7 @@ From Coq Require Import List Bool Arith Lia.
 Import ListNotations.
 From Omega Require Import L4.Arena L4.ArenaFacts L4.Kleene L4.AlgOrder L4.GameSpec L4.Mu L4.GR1Spec.
 From OmegaGen Require Import FixpointGen Gr1Gen.
+From OmegaGP Require Import ReadsGr1.
 From OmegaGP Require Import FixpointProofs StreettProofs.
 
 Section Rabin.
